@@ -7,6 +7,8 @@ from .. import paths
 from ..core import FUNC, call_attr, calls_in, const, dotted, is_const, kwarg, norm, text, walk_local
 
 EXPLANATION = [
+    'C06.connect-test-reached: every path through Controller.on_advertising_pdu reaches the test of pending_le_connection (no early exit out of the scanning branch).',
+    'C06.enum-default: no `value or Enum.MEMBER` default in device / controller / host / link for an enum that has a member 0 (PUBLIC = 0 is a legitimate own-address type).',
     'C06.own-address-agreement: every Device method that sends LE Set Random Address passes the value the device holds in self.random_address afterwards (the one it stores in the same method, or self.random_address itself).',
     'C06.adv-data-verbatim: the LE set-(extended-)advertising-data / scan-response-data handlers use command.advertising_data / command.scan_response_data as received (no method call, slice or arithmetic on it).',
     'C06.link-address-fixed: in bumble.controller the self_address / peer_address of a link are passed to the Connection constructor and never assigned on an existing connection object.',
@@ -502,7 +504,34 @@ def own_address_agreement(ctx):
     R.check(n >= 2, rule, 'bumble.device.Device | LE Set Random Address commands', f'{n}', f'only {n} found')
 
 
+def enum_default(ctx):
+    from ..generic_rules import falsy_enum_default
+    falsy_enum_default(ctx, 'C06.enum-default', ['bumble.device', 'bumble.controller', 'bumble.host', 'bumble.link'])
+
+
+def connect_test_reached(ctx):
+    """Controller.on_advertising_pdu serves the scanner and the initiator: whatever the scanning branch does (report,
+    filter), every path through the function reaches the test of the pending connection at its end."""
+    R, p = ctx.r, ctx.p
+    rule = 'C06.connect-test-reached'
+    fn = p.find(f'{CTRL}.on_advertising_pdu')
+    if fn is None:
+        R.bad(rule, f'{CTRL}.on_advertising_pdu', 'anchor missing')
+        return
+
+    class D(paths.Domain):
+        def assume(self, atom, truth, v):
+            if 'pending_le_connection' in norm(atom):
+                return (True,)
+            return (v,)
+    res = paths.run(fn, D(), False)
+    bad = [f'{k} via {" ".join(w)}' for k, st in res.items() if not k.startswith('raise') for v, w in st.items() if not v]
+    R.check(bool(res) and not bad, rule, f'{CTRL}.on_advertising_pdu', 'every path tests the pending connection', f'a path leaves on_advertising_pdu before the pending connection is tested ({bad[:1]}): an initiator that is also scanning never connects to an advertiser the scan branch chose not to report', p.loc(fn))
+
+
 RULES = [
+    ('C06.connect-test-reached', connect_test_reached),
+    ('C06.enum-default', enum_default),
     ('C06.own-address-agreement', own_address_agreement),
     ('C06.adv-data-verbatim', adv_data_verbatim),
     ('C06.link-address-fixed', link_address_fixed),
